@@ -145,7 +145,10 @@ fn step<S: Sys>(cfg: &S::Cfg, hist: &[S::Op], op: &S::Op) -> Succ {
         return Succ {
             key: 0,
             outcome: 0,
-            viol: Some((format!("{}:panic-in-replay", S::NAME), "replay panicked".into())),
+            viol: Some((
+                format!("{}:panic-in-replay", S::NAME),
+                "replay panicked".into(),
+            )),
         };
     };
     match catch_unwind(AssertUnwindSafe(|| {
@@ -304,6 +307,7 @@ struct Acc {
     outcomes: HashSet<u64>,
     max_depth: u32,
     timed_out: bool,
+    viol_count: u64,
 }
 
 /// E3: enumerate every operation sequence up to `max_depth` (no merging), by replay
@@ -350,19 +354,37 @@ pub fn enumerate<S: Sys>(cfg: &S::Cfg, lim: &Limits) -> SearchOut {
                 let mut acc = Acc::default();
                 let mut viols = Vec::new();
                 let mut hist = p.clone();
-                dfs::<S>(cfg, &mut hist, lim.max_depth, lim.deadline, &mut acc, &mut viols);
+                dfs::<S>(
+                    cfg,
+                    &mut hist,
+                    lim.max_depth,
+                    lim.deadline,
+                    &mut acc,
+                    &mut viols,
+                );
                 (acc, viols)
             })
             .collect();
+        let mut all_viols = Vec::new();
+        let total: u64 = results.iter().map(|(acc, _)| acc.viol_count).sum();
+        if total > 0 {
+            out.viol_counts.insert(
+                "(violating sequences below the fan-out prefixes, all signatures)".into(),
+                total,
+            );
+        }
         for (acc, viols) in results {
             out.states += acc.nodes;
             out.transitions += acc.nodes;
             out.outcomes.extend(acc.outcomes);
             out.depth = out.depth.max(acc.max_depth);
             out.capped |= acc.timed_out;
-            for (h, sig, what) in viols {
-                record_viol::<S>(&mut out, cfg, &h, None, sig, what);
-            }
+            all_viols.extend(viols);
+        }
+        // depth-first order is not shortest-first: report the shortest counterexamples
+        all_viols.sort_by_key(|(h, _, _)| h.len());
+        for (h, sig, what) in all_viols {
+            record_viol::<S>(&mut out, cfg, &h, None, sig, what);
         }
     }
     if let Some(p) = prefixes.last() {
@@ -395,9 +417,21 @@ fn dfs<S: Sys>(
         acc.max_depth = acc.max_depth.max(hist.len() as u32 + 1);
         hist.push(op);
         if let Some((sig, what)) = s.viol {
-            if viols.len() < 64 {
+            // keep the shortest two per signature within this subtree
+            let same: Vec<usize> = viols
+                .iter()
+                .enumerate()
+                .filter(|(_, v)| v.1 == sig)
+                .map(|(i, _)| i)
+                .collect();
+            if same.len() < 2 {
                 viols.push((hist.clone(), sig, what));
+            } else if let Some(&worst) = same.iter().max_by_key(|&&i| viols[i].0.len()) {
+                if viols[worst].0.len() > hist.len() {
+                    viols[worst] = (hist.clone(), sig, what);
+                }
             }
+            acc.viol_count += 1;
         } else {
             dfs::<S>(cfg, hist, max_depth, deadline, acc, viols);
         }
@@ -424,7 +458,11 @@ pub fn replay_text<S: Sys>(v: &Value) -> String {
             None => return format!("{}: cannot parse op {}", S::NAME, o),
         }
     }
-    text.push_str(&format!("component {} config {}\n", S::NAME, S::cfg_json(&cfg)));
+    text.push_str(&format!(
+        "component {} config {}\n",
+        S::NAME,
+        S::cfg_json(&cfg)
+    ));
     let mut s = S::new(&cfg);
     for (i, op) in hist.iter().enumerate() {
         let r = catch_unwind(AssertUnwindSafe(|| {
@@ -438,7 +476,11 @@ pub fn replay_text<S: Sys>(v: &Value) -> String {
                     "  #{:<2} {}{}\n        real : {}\n        model: {}\n",
                     i + 1,
                     S::op_json(op),
-                    if enabled { "" } else { "   (not in the enabled alphabet here)" },
+                    if enabled {
+                        ""
+                    } else {
+                        "   (not in the enabled alphabet here)"
+                    },
                     out.real,
                     out.model
                 ));
